@@ -37,7 +37,9 @@ fn main() {
     let prop = args[1].as_str();
     let seed: u64 = args[2].parse().expect("seed");
     let n: usize = args[3].parse().expect("n");
-    std::panic::set_hook(Box::new(|_| {}));
+    if std::env::var("VH_TRACE").is_err() {
+        std::panic::set_hook(Box::new(|_| {}));
+    }
     let mut rng = Rng::new(seed ^ (prop.bytes().fold(0u64, |a, b| a.wrapping_mul(131).wrapping_add(b as u64))));
     if prop == "PROBE" {
         probe::run();
